@@ -108,7 +108,9 @@ def convert(paths, per_module_max=None, stride=1, per_file_max=None):
             mod, cfg, why = cfg_for(new)
             kinds = {e["e"] for e in evs}
             if why is None:
-                if "repoll" in kinds:
+                if "tstart" in kinds:
+                    why = "threaded run (order of concurrent wakes is not logged)"
+                elif "repoll" in kinds:
                     why = "poll after the final result (unspecified, not modelled)"
                 elif "skip" in kinds:
                     why = "vector skipped by the harness"
